@@ -245,7 +245,7 @@ impl Shrink for DepthCase {
     }
 }
 
-fn chain(c: &DepthCase) -> TVal {
+pub fn chain(c: &DepthCase) -> TVal {
     let mut v = TVal::I32(7);
     for i in 0..c.depth {
         let hop = c.hops.get(i % c.hops.len().max(1)).copied().unwrap_or(0);
@@ -311,6 +311,36 @@ fn check_depth(c: &DepthCase) -> PResult {
             Err(p) => return Err(Fail::new("depth-panic-Unsafe", format!("unchecked: skip of nesting {} panicked: {}", c.depth + 1, p))),
             Ok(Ok(n)) => ensure!(n == vlen, "skip-count-Unsafe", "unchecked: nesting {}: skip reported {} of {}", c.depth + 1, n, vlen),
             Ok(Err(e)) => ensure!(is_depth_limit(&e), "depth-wrong-error-Unsafe", "unchecked: nesting {} refused with {:?}", c.depth + 1, e),
+        }
+    }
+    Ok(())
+}
+
+/// C12's view of the same chains: whatever the in-memory skipper answers at this nesting
+/// (skipped or refused), the asynchronous skipper answers the same and takes the same bytes.
+pub fn depth_differential(c: &DepthCase) -> PResult {
+    let v = chain(c);
+    let tt = v.tt();
+    for pk in [PKind::Binary, PKind::BinaryLe, PKind::Compact] {
+        let mut data = vcore::refthrift::encode(pk.ref_proto(), &v);
+        let len = data.len();
+        data.extend_from_slice(&[0xA5; 8]);
+        let mut bytes = Bytes::from(data.clone());
+        let s = match catch(|| with_reader!(pk, &mut bytes, |p| p.skip(to_ttype(tt)))) {
+            Ok(r) => r.is_ok(),
+            Err(_) => continue, // a panicking in-memory skipper is C09's subject
+        };
+        let (reader, stats) = ScriptedReader::new(data, vec![Step::Chunk(7), Step::Pending, Step::Chunk(1)]);
+        let budget = 64 * len + 256;
+        let a = match catch(|| with_async_reader!(pk, reader, |p| block_on(p.skip(to_ttype(tt)), budget))) {
+            Err(p) => return Err(Fail::new(&format!("async-depth-panic-{:?}", pk), format!("async {:?}: skip of nesting {} panicked: {}", pk, c.depth + 1, p))),
+            Ok(Err(_)) => return Err(Fail::new(&format!("async-skip-hang-{:?}", pk), format!("async {:?}: poll budget exceeded at nesting {}", pk, c.depth + 1))),
+            Ok(Ok(r)) => r.is_ok(),
+        };
+        ensure!(s == a, &format!("async-depth-differs-{:?}", pk), "{:?}: nesting {} through hops {:?}: the in-memory skipper {} it, the asynchronous skipper {} it", pk, c.depth + 1, c.hops, if s { "skips" } else { "refuses" }, if a { "skips" } else { "refuses" });
+        if s {
+            let handed = stats.handed.load(std::sync::atomic::Ordering::Relaxed);
+            ensure!(handed == len, &format!("async-depth-overread-{:?}", pk), "{:?}: nesting {}: asynchronous skip took {} bytes, the value has {}", pk, c.depth + 1, handed, len);
         }
     }
     Ok(())
